@@ -529,7 +529,7 @@ func run(c Case, ev *pbt.Ev) error {
 }
 
 func TestProp_Access(t *testing.T) {
-	pbt.Run(t, pbt.Options{Prop: "C02", Name: "Access", Quick: 2500, Thorough: 15000, Current: true, Timeout: 120 * time.Second,
+	pbt.Run(t, pbt.Options{Prop: "C02", Name: "Access", Quick: 2500, Thorough: 7500, Current: true, Timeout: 120 * time.Second,
 		Floors: map[string]float64{"has-hardlink": 0.15, "read-past-eof": 0.15},
 		Rule: "rapid: archive (<=14 entries: ./ ../ / spellings, trailing slashes, implicit parents, hardlink chains, duplicate names, empty/1-byte/multi-chunk files, PAX xattrs incl. empty and binary values, suid/sgid/sticky, char/block/fifo, ids up to 2^31, mtimes incl. 0 and sub-second, long and non-ASCII names) x build options (chunk, min-chunk, gzip/zstd/external TOC, prioritized, workers) " +
 			"x stack config (memory/db store, memory/directory caches with LRU 1-3, direct, registry chunk size 37..default) x lookup memoisation x 1-25 steps of lookup/readdir/getattr/readlink/xattrs/read(off,len incl. past EOF, across chunks)/Prefetch/BackgroundFetch through the real resolver -> verified layer -> go-fuse nodes; " +
@@ -569,7 +569,7 @@ func runConc(c Case, ev *pbt.Ev) error {
 }
 
 func TestProp_ConcurrentReaders(t *testing.T) {
-	pbt.Run(t, pbt.Options{Prop: "C02", Name: "ConcurrentReaders", Quick: 600, Thorough: 3600, Current: true, Timeout: 120 * time.Second,
+	pbt.Run(t, pbt.Options{Prop: "C02", Name: "ConcurrentReaders", Quick: 600, Thorough: 1800, Current: true, Timeout: 120 * time.Second,
 		Rule: "as Access, with 2-4 concurrent readers each running a generated program of 1-12 steps on one mounted layer (incl. concurrent Prefetch/BackgroundFetch); same oracle per step. non-trivial = every case",
 	}, genConc, runConc)
 }
